@@ -103,7 +103,7 @@ fn bounds(prop: &str, tier: Tier) -> Bounds {
             perft_depth: if q { 2 } else { 3 },
             scenario_depth: if q { 2 } else { 3 },
             families: if q {
-                vec![(PawnPush, 0, true), (PromoPin, 0, true), (EpCheck, 0, false), (PromoCheck, 0, false), (Castle, 0, false)]
+                vec![(PawnPush, 0, true), (PromoPin, 0, true), (EpCheck, 0, true), (PromoCheck, 0, false), (Castle, 0, false)]
             } else {
                 vec![(PawnPush, 1, true), (PromoPin, 0, true), (Pin, 0, false), (Ep, 1, false), (Castle, 1, false), (Promo, 1, false), (EpCheck, 1, false), (PromoCheck, 1, false), (Three, 0, false)]
             },
@@ -113,7 +113,7 @@ fn bounds(prop: &str, tier: Tier) -> Bounds {
             start_depth: if q { 4 } else { 6 },
             perft_depth: if q { 2 } else { 4 },
             scenario_depth: if q { 2 } else { 3 },
-            families: if q { vec![(PawnPush, 0, true), (PromoPin, 0, true), (Three, 0, false), (Pin, 0, false), (EpCheck, 0, true), (PromoCheck, 0, true), (Castle, 0, true)] } else { thorough_families },
+            families: if q { vec![(PawnPush, 0, true), (PromoPin, 0, true), (Three, 0, false), (Pin, 0, false), (Ep, 0, false), (EpCheck, 0, true), (PromoCheck, 0, true), (Castle, 0, true)] } else { thorough_families },
             sweep_stride: 64,
         },
         "C04" => Bounds {
@@ -127,7 +127,7 @@ fn bounds(prop: &str, tier: Tier) -> Bounds {
             start_depth: if q { 4 } else { 6 },
             perft_depth: if q { 2 } else { 4 },
             scenario_depth: if q { 2 } else { 3 },
-            families: if q { vec![(PawnPush, 0, true), (PromoPin, 0, true), (Ep, 0, false), (EpCheck, 0, true), (PromoCheck, 0, true), (Castle, 0, true)] } else { thorough_families },
+            families: if q { vec![(PawnPush, 0, true), (PromoPin, 0, true), (Three, 0, false), (Ep, 0, false), (EpCheck, 0, true), (PromoCheck, 0, true), (Castle, 0, true)] } else { thorough_families },
             sweep_stride: 64,
         },
     }
@@ -282,6 +282,17 @@ fn c05_field_fens(tier: Tier) -> Vec<String> {
     for h in [0, 1, 9, 10, 99, 100, 999, 1000, 9999] {
         for f in [0, 1, 9, 10, 99, 100, 999, 1000, 9999] {
             out.push(format!("4k3/8/8/8/8/8/8/4K3 w - - {h} {f}"));
+        }
+    }
+    // the longest texts a board can have: fragmented placements (a piece on every other square),
+    // all four rights, an en-passant square and four-digit clocks (up to 91 bytes)
+    for place in crate::roots::LONG_PLACEMENTS {
+        for (turn, ep) in [("w", "-"), ("b", "-")] {
+            for clocks in ["0 1", "9999 9999", "103 60"] {
+                for rights in ["KQkq", "-"] {
+                    out.push(format!("{place} {turn} {rights} {ep} {clocks}"));
+                }
+            }
         }
     }
     out
